@@ -42,7 +42,7 @@ def plan(hist):
             cmds.append('pump')
             expect.append({'step': step, 'parked_prefix': {cur[cli]: 'log/'}, 'comp_event': 'Free'})
         elif act == 'Select':
-            # the thread reaches the selector lock, then (through however many critical sections it takes) returns
+            # exactly one critical section (the model's atomic action): the thread reaches the selector lock, then returns
             cmds.append(f'run {cur[cli]} lock')
             expect.append({'step': step, 'parked': {cur[cli]: 'lock'}})
             cmds.append(f'run {cur[cli]}')
@@ -55,7 +55,7 @@ def plan(hist):
         elif act == 'OutBegin':
             nev += 1
             evname = f'ev{nev}'
-            # the delivery takes the selector lock and, if somebody is selected, calls the handler inside
+            # the delivery takes the selector lock exactly once and, if somebody is selected, calls the handler inside
             cmds.append(f'comp {evname} api Done 5')
             expect.append({'step': step})
             cmds.append(f'run {evname} lock')
